@@ -1,6 +1,8 @@
 """C14 — generated types with doubles have a lawful total order, equality and hash."""
 from vlib import kani
 
+K_GEN = {'c14g1': ['c14g_double_alias_laws', 'c14g_union_pair_laws', 'c14g_union_double_transitivity'],
+         'c14g2': ['c14g_object_scalar_and_optional_laws'], 'c14g3': ['c14g_nested_object_laws'], 'c14g4': ['c14g_object_with_list_eq_cmp_hash']}
 K_QUICK = {'c14a': ['c14_f64_laws', 'c14_double_key_laws', 'c14_option_f64_laws'],
            'c14b': ['c14_vec_f64_laws_len2'], 'c14c': ['c14_option_vec_f64_laws_len1']}
 
@@ -9,9 +11,20 @@ def run(rep, tier):
     rep.bounds['K'] = 'symbolic f64 triples at full width (every NaN payload, +-0, +-inf); Vec<f64> of <= 2 elements, Option<Vec<f64>> of <= 1; unwind 66 (64-byte recording hasher)'
     rep.assumptions += ['Kani/CBMC model of the compiled code incl. the real ordered_float::OrderedFloat',
                         'hash equality is asserted as identical byte streams into a recording Hasher (holds for every Hasher)']
-    res = kani.run_parallel(K_QUICK, timeout_s=1500, mem_gb=16)
+    import concurrent.futures as cf
+    with cf.ThreadPoolExecutor(max_workers=2) as ex:          # both harness crates at once (own target dirs)
+        fut_rt = ex.submit(kani.run_parallel, K_QUICK, 1500, 16)
+        fut_gen = ex.submit(kani.run_parallel, K_GEN, 1500, 16, 8, 'kani-gen')
+        res, resg = fut_rt.result(), fut_gen.result()
     failed = kani.record(rep, res)
     rep.functions_encoded += ['DoubleOps for f64 / Option<T> / Vec<T> (cmp, eq, hash)', 'DoubleKey: PartialEq, Ord, PartialOrd, Hash']
     kani.handle_failures(rep, failed, 'C14')
+    # generated types: the real generator's output for the IR family (gen-crates/types), educe-derived Eq/Ord/Hash with the
+    # per-field attributes the generator chose
+    rep.bounds['K-generated'] = ('generated alias<double>, union{double,integer} (concrete variants, Unknown not constructed), object{double, optional<double>, list<double> of <= 1}, '
+                                 'object nesting that object; full-width symbolic doubles; triples for alias/scalar object, pairs (+ transitivity on the double variant) elsewhere')
+    failedg = kani.record(rep, resg)
+    rep.functions_encoded += ['educe-derived PartialEq/Eq/PartialOrd/Ord/Hash of the generated DoubleAlias, UnionD, ObjD, ObjNest (conjure-codegen output at build time)']
+    kani.handle_failures(rep, failedg, 'C14', crate='kani-gen')
     rep.outside += ['containers longer than 2 elements', 'BTreeMap<K, V> DoubleOps (B-tree code does not get through CBMC; engine M)',
-                    'educe-derived impls of generated types (separate harness crate generated from the IR family)']
+                    'generated maps/sets with doubles (B-tree), lists longer than 1 inside generated objects, the Unknown union variant']
